@@ -3,6 +3,16 @@ NOT_APPLICABLE = {}
 TB = ("Trusted: Coq 8.16.1 kernel + vm_compute (no native_compute, no axioms: every property theorem prints 'Closed under the global context'); "
       "the hand-written Gallina model, tied to /repo only by the correspondence check of each run (sampled behaviours); the Go harness (generators, oracles) ")
 TEXTS = {
+ "C01": {
+  "text": "Theorems: counter — any two orders of the same operations give the same value; map — in every reachable state of the abstract replicated system (N replicas, one log, arbitrary interleaving of generate/push/deliver) replicas with the same applied operations agree on every key (value/tombstone/timestamp) and on Size, obtained from a datatype-independent theorem (executable permutations of duplicate-free operations agree) instantiated with the map kernel's commutation lemmas. The kernels are the executable model functions that the correspondence check replays, event by event, against 2..4 real replicas (views, sizes, results, emitted operations) on every run; an oracle compares real replicas whenever their applied sets coincide.",
+  "note": TB + "; list and document instances of the convergence theorem are not yet proved (their correspondence and oracle run); the link from the concrete datatype wrapper to the abstract system's Gen step is by the local_eq_remote lemmas, not yet a full simulation proof.",
+  "technique": "Coq proof (abstract permutation/convergence theorem + per-datatype commutation) + in-Coq differential replay of real replica histories",
+ },
+ "C02": {
+  "text": "Theorems: the counter equals wrap32 of the sum of all increments; a map key holds the entry of the operation with the greatest timestamp among all operations on that key (absent iff none) for every executable order — a function of the operation set only. The model functions are tied to the code by the crdt correspondence slices; model-vs-implementation replay catches convergent-but-wrong-winner changes.",
+  "note": TB + "; list/array part of the statement (newest update unless deleted, siblings newest first) is so far covered by model correspondence only.",
+  "technique": "Coq proof (max-timestamp characterisation by induction over executable sequences) + in-Coq differential replay",
+ },
  "C15": {
   "text": "Theorems over the Gallina model of timestamp.go/operation_id.go: the node-table key is injective for all timestamps (unbounded), comparison is a strict total order over distinct operations for all clocks below the half-range wrap (and refuted beyond it by a machine-checked witness). The model is tied to the code on every run by evaluating the implementation's observed Compare/Hash-equality/Next/RollBack/SyncLamport results inside Coq, plus an exhaustive key-collision grid on the implementation.",
   "note": TB + "; clocks assumed < 2^63 / eras < 2^31.",
